@@ -131,6 +131,10 @@ def _is_classvar(ann) -> bool:
     return False
 
 
+class Deque(list):
+    """collections.deque (unbounded): a list with popleft/appendleft (see attrs._native_method)."""
+
+
 class SObj:
     """Instance of a ClassVal with a concrete identity and a field dictionary."""
 
